@@ -70,6 +70,39 @@ CLAIMED["C08"] = dict(
     technique="Kani harness contracts per deserializer method over all short inputs; CBMC-generated safety obligations + UTF-8 / sub-slice postconditions; dependency stubbed by assumed contract",
 )
 
+CLAIMED["C02"] = dict(
+    category="model_checking",
+    text="Bounded, piece contracts only. Method::from_bytes (Some(m) iff the token is exactly a method name, all tokens <= 8 bytes); request Header::from_bytes (a recognised name equals "
+         "the standard name up to ASCII case for all names <= 12 bytes; canonical and all-lowercase spelling of all 46 headers are recognised; the case-insensitivity clause for every case "
+         "variant of Content-Length is evaluated and is a KNOWN FINDING); repeated standard headers joined in order with `, `; Request::read_payload returns exactly the announced body bytes for "
+         "every split between bytes that arrived with the head and bytes still to come (shared with C06).",
+    design_ref="DESIGN.md §4 C02",
+    note="The request-line / header-loop glue of Request::read (target, version, header lines, Content-Length fold) and QueryParams::iter are NOT under a discharged contract: a whole-read "
+         "harness does not get through CBMC's symbolic execution (DESIGN §2). Known finding KF-C02-header-case (open). A genuine defect was repaired (fix: 14e1cdc).",
+    technique="Kani harness contracts over all short byte strings / all case masks; scripted AsyncRead for read_payload",
+)
+CLAIMED["C05"] = dict(
+    category="model_checking",
+    text="Bounded. Frame contract of Request::clear on the reused request object: from every state of an enumerated family of shapes (0-1 standard header, a repeated header, a custom header, "
+         "an owned payload, a context entry; contents symbolic; buffer holding arbitrary bytes of the earlier request) the state after clear() shows no standard header (all 46 slots), no custom "
+         "header, no payload, no context entry, and a header appended afterwards is the only header. With the repaired Request::read (parses only the bytes of the current read) this is the "
+         "induction step for 'nothing from earlier requests is observable'.",
+    design_ref="DESIGN.md §4 C05",
+    note="Session::manage (clear -> read -> handle -> send loop, response order, Connection: close) is written against TcpStream and is read, not verified; whole-read non-interference is not "
+         "a discharged obligation; path/query reset is plain assignment (not in the harness).",
+    technique="Kani harness contract: frame condition of clear() over enumerated pre-state shapes with symbolic contents",
+)
+CLAIMED["C06"] = dict(
+    category="model_checking",
+    text="Bounded, body delivery only. Harness contract on the real async fn Request::read_payload with a scripted AsyncRead: for every body of 1..3 bytes (any values, 0x00 included), every split "
+         "into bytes that arrived with the head (0..4, possibly followed by bytes of the next request) and bytes still to come, and chunk sizes 1 and 4, the result is exactly the body bytes, exactly "
+         "the missing bytes are consumed from the stream, and nothing is awaited when the body has already arrived.",
+    design_ref="DESIGN.md §4 C06",
+    note="A split inside the request head and several requests in one read are OUTSIDE the claim (Request::read parses one read; no whole-read harness is affordable), so no finding is listed for them. "
+         "A genuine defect found by these obligations was repaired (fix: 14e1cdc).",
+    technique="Kani harness contract over enumerated (size, split, chunking) shapes with symbolic contents; scripted AsyncRead + hand-written block_on",
+)
+
 NOT_APPLICABLE = {
 }
 
